@@ -11,6 +11,7 @@ fn main() {
         "iri" => sv::iri::main(&args[2..]),
         "iso" => sv::iso::main(&args[2..]),
         "nq" => sv::nq::main(&args[2..]),
+        "c14n" => sv::c14n::main(&args[2..]),
         _ => {
             eprintln!("unknown family {fam}");
             std::process::exit(2);
